@@ -27,8 +27,12 @@ Fixpoint segs_layout (w : nat) (l : list (Z * Z)) : bytes :=
 Definition nak_body (c : PduConfig) (q : NakParams) : bytes :=
   [8] ++ pair_layout (nak_w c) (np_start q, np_end q) ++ segs_layout (nak_w c) (np_segs q).
 
-Definition nak_dlen (c : PduConfig) (q : NakParams) : Z :=
-  1 + 2 * Z.of_nat (nak_w c) * (1 + Z.of_nat (length (np_segs q))) + (if cf_crc c =? 1 then 2 else 0).
+(* octets after the directive code (the "directive parameter field") *)
+Definition nak_plen (c : PduConfig) (q : NakParams) : Z :=
+  2 * Z.of_nat (nak_w c) * (1 + Z.of_nat (length (np_segs q))) + (if cf_crc c =? 1 then 2 else 0).
+
+(* PDU data field length: directive code + parameter field *)
+Definition nak_dlen (c : PduConfig) (q : NakParams) : Z := nak_plen c q + 1.
 
 Definition nak_header (c : PduConfig) (q : NakParams) : PduHeader :=
   {| h_type := 0; h_meta := 0; h_dlen := nak_dlen c q; h_conf := conf_set_dir c 1 |}.
